@@ -1,23 +1,36 @@
 #!/usr/bin/env python3
-"""Regenerates /verif/MANIFEST.json from the table below (kept in one place so it stays valid)."""
+"""Regenerates /verif/MANIFEST.json from the checker's own registry (`gmcheck describe`) and the
+technique table below, so the manifest always lists exactly the properties that have rules."""
 import json, subprocess
 
 props = [json.loads(l)["id"] for l in open("/verif/properties.jsonl")]
 
 BIN = "/verif/bin/gmcheck"
-ENSURE = "test -x /verif/bin/gmcheck || (cd /verif/checker && GOFLAGS=-mod=vendor GOPROXY=off GOSUMDB=off GOTOOLCHAIN=local GOWORK=off go build -o /verif/bin/gmcheck .) && "
+BUILD = "cd /verif/checker && GOFLAGS=-mod=vendor GOPROXY=off GOSUMDB=off GOTOOLCHAIN=local GOWORK=off go build -o /verif/bin/gmcheck ."
+ENSURE = "test -x /verif/bin/gmcheck || (" + BUILD + ") && "
 
-# id -> (level, technique, text, note, design_ref)
-claimed = {
- "C06": ("other", "effect analysis over SSA + refined VTA call graph (stores into shared/node memory, nondeterminism sources, Convert shape)",
-         "Static effect analysis decides necessary conditions of purity for every path of the code: no store into configuration/global memory reachable per call outside sync.Once, no stateful foreign object in shared memory, rendering never writes node memory (except nil-guarded memoisation), no nondeterminism source, Convert = Parse;Render. It covers all inputs, histories and configurations of the built-in components at once but does not compare output bytes.",
-         "type-directed memory classes; VTA call graph with pass-site refinement; user extensions and caller-supplied Context out of scope", "DESIGN.md 3/C06"),
- "C07": ("proof", "effect analysis: shared-memory write inventory + sync.Once discipline + init-only registries + thread-safe foreign receivers + C12",
-         "A complete race-freedom argument modulo the stated trusted base: every write performed by a call goes to memory no concurrent call can reach (S, O, I, T) and the source buffer is never written (B = C12). All obligations are recomputed from /repo's source on every run.",
-         "Go memory model for sync.Once; table of concurrency-safe stdlib types; call-graph refinement; type-directed memory classes; user extensions out of scope", "DESIGN.md 3/C07"),
- "C12": ("proof", "ownership (freshness) dataflow over SSA for every []byte write site + copy-on-write typestate + unsafe inventory",
-         "Every way Go code can write through a []byte (indexed store, copy, append, writing callee, unsafe) is enumerated over all functions of the 9 packages and each destination is proved to be memory allocated by the writing activation (or a capped sub-slice for append). Complete modulo the trusted base.",
-         "Go slice semantics; table of writing stdlib functions; io.Writer contract; user-supplied Writer/extensions out of scope", "DESIGN.md 3/C12"),
+desc = {d["ID"]: d for d in json.loads(subprocess.check_output([BIN, "describe"]))}
+
+# id -> the deciding method, in a few words
+technique = {
+ "C01": "loop-progress (stuck-cycle) analysis over SSA cycles, must-advance path rule for inline parsers, countdown-underflow contradiction rule, reachable-panic inventory, registry/type-assertion agreement",
+ "C03": "taint-to-sink dataflow over SSA with an HTML lexer-state dataflow over the constant writes (attribute contexts), dominance by the Unsafe flag, constant-vocabulary extraction, escape-table evaluation",
+ "C04": "dominance/guard analysis of every href/src sink found by the lexer-state dataflow + same-value (SSA identity) rule between tested and written URL + constant evaluation of the predicate tables",
+ "C05": "path enumeration over the SSA CFG of every tree mutator with paired-effect (count vs attach/detach) accounting, link-symmetry rule, who-may-call rule for raw link setters",
+ "C06": "effect analysis over SSA + refined VTA call graph (stores into shared/node memory, nondeterminism sources, Convert shape)",
+ "C07": "effect analysis: shared-memory write inventory + sync.Once discipline + init-only registries + thread-safe foreign receivers + C12",
+ "C08": "symbolic linear-form rule on every reader.Advance argument in BlockParser.Open/Continue (never the whole peeked line) + who-may-call rule for AdvanceLine",
+ "C09": "call-graph phase separation (AddReference only in the block phase, lookups only in the inline phase, block phase dominates inline phase) + first-definition-wins dominance rule",
+ "C10": "option-flag use-shape analysis over SSA (each load of XHTML/HardWraps/Unsafe only as a branch between constant writes that differ as the statement allows) + option propagation/table agreement",
+ "C11": "shape rule for GFM composition + path rule: only the width predicate may suppress the soft line break",
+ "C12": "ownership (freshness) dataflow over SSA for every []byte write site + copy-on-write typestate + unsafe inventory",
+ "C13": "path enumeration over tree mutators (count/link pairing, symmetry, detach-before-attach) + finite-state exploration of the Walk helper's CFG x abstract status/error domain",
+ "C14": "return-value provenance (Render returns Flush() or the walk error; Convert returns it) + single-output-channel rule over all sinks + no control flow on write results",
+ "C15": "postcondition rule on the id generator (returned id inserted under a miss-edge of a lookup of the same key, non-empty) + per-document table + every heading parser's Close serves an id",
+ "C17": "dominance rule on the table transformer (header width == alignments) + per-iteration path enumeration of the row builder (one cell per column index, bounded by len(alignments))",
+ "C18": "cache-coherence path rule on every reader method (each store to the cursor resets the derived caches) + restore-on-exit rule for the search helpers + sibling cross-check",
+ "C19": "guard/dominance rule for percent triples, freshness (no aliasing) rule for derived byte filters, constant evaluation of the lookup tables, no-argument-write rule for exported util functions",
+ "C20": "dominance rules over the initialisers (sort dominates build, free parsers after all block parsers), comparator normal form, registration-loop direction, bounds-guarded dispatch",
 }
 
 na_reasons = {
@@ -27,8 +40,9 @@ na_reasons = {
 
 checks = []
 for pid in props:
-    if pid in claimed:
-        level, tech, text, note, ref = claimed[pid]
+    if pid in desc:
+        d = desc[pid]
+        note = "trusted base: " + "; ".join(d.get("Trusted") or ["Go semantics as modelled by go/ssa"]) + ". assumes: " + "; ".join(d.get("Assumes") or ["user-supplied extensions out of scope"])
         checks.append({
             "property_id": pid,
             "quick_cmd": f"{ENSURE}{BIN} {pid} --tier quick",
@@ -36,25 +50,25 @@ for pid in props:
             "evidence_file": f"/verif/evidence/{pid}.json",
             "replay_cmd_template": f"{BIN} {pid} --replay {{path}}",
             "engine": "gmcheck",
-            "level_claimed": {"category": level, "text": text, "design_ref": ref},
+            "level_claimed": {"category": d["Level"], "text": d["Explain"], "design_ref": f"DESIGN.md 3/{pid}"},
             "level_note": note,
-            "technique": "static analysis: " + tech,
+            "technique": "static analysis: " + technique[pid],
         })
 na = []
 for pid in props:
-    if pid not in claimed:
+    if pid not in desc:
         na.append({"property_id": pid, "reason": na_reasons.get(pid, "check not built yet (planned rules in DESIGN.md section 3)")})
 
 m = {
  "version": 1,
- "setup_cmd": "cd /verif/checker && GOFLAGS=-mod=vendor GOPROXY=off GOSUMDB=off GOTOOLCHAIN=local GOWORK=off go build -o /verif/bin/gmcheck .",
+ "setup_cmd": BUILD,
  "hooks": {"guard": "verif", "enable": "none needed: static analysis reads /repo's source; nothing is compiled into goldmark",
            "baseline_off_cmd": "cd /repo && GOFLAGS=-mod=mod GOPROXY=off GOSUMDB=off go test -vet=off -count=1 ./...",
            "source_commits": [], "add_only": True},
- "engines": [{"name": "gmcheck", "path": "/verif/checker", "serves_properties": sorted(claimed), "kind_free_text": "custom static analyser over go/packages + go/ssa + VTA call graph (x/tools v0.29.0, vendored)"}],
+ "engines": [{"name": "gmcheck", "path": "/verif/checker", "serves_properties": sorted(desc), "kind_free_text": "custom static analyser over go/packages + go/ssa + VTA call graph (x/tools v0.29.0, vendored)"}],
  "checks": checks,
  "notes": "All checks are static: they load and type-check /repo's current source on every run. Repairs of genuine defects found by the rules are the 'fix:' commits in /repo, recorded in /verif/known_findings.txt.",
  "not_applicable": na,
 }
 json.dump(m, open("/verif/MANIFEST.json", "w"), indent=1)
-print("claimed:", sorted(claimed), "n/a:", [x["property_id"] for x in na])
+print("claimed:", sorted(desc), "n/a:", [x["property_id"] for x in na])
